@@ -60,6 +60,7 @@ Lemma wpr_wsum s id ack rem tag big : is_publ tag = true ->
   wsum s (fst (wait_publish_response s id ack rem tag big)).
 Proof.
   intros T. unfold wait_publish_response, enc_publish_chk, enc_publish, new_chan, add_wire.
+  destruct (stopped s); [apply wsum_quiet, quiet_refl|].
   destruct (N.eqb_spec (srem s) 0) as [S|S]; cbn [negb]; [|apply wsum_quiet, quiet_refl].
   destruct (memN id (ids s)); [apply wsum_quiet, quiet_refl|].
   destruct (N.eqb_spec (io s) 0) as [I|I].
@@ -71,6 +72,7 @@ Qed.
 Lemma wr_wsum s id ack tag : is_ctl tag = true -> wsum s (fst (wait_response s id ack tag)).
 Proof.
   intros T. unfold wait_response, enc_packet, new_chan, add_wire.
+  destruct (stopped s); [apply wsum_quiet, quiet_refl|].
   destruct (negb (srem s =? 0)); [apply wsum_quiet, quiet_refl|].
   destruct (memN id (ids s)); [apply wsum_quiet, quiet_refl|].
   destruct (N.eqb_spec (io s) 0) as [I|I].
@@ -114,7 +116,9 @@ Proof. unfold proceed. destruct (_ || _); [apply inner_subscribe_wsum|apply inne
 
 Lemma wtp_wsum s x : wsum s (fst (window_then_proceed s x)).
 Proof.
-  unfold window_then_proceed, wait_readiness, new_chan. destruct (_ || _); [cbn [fst]; apply wsum_quiet; qt|apply proceed_wsum].
+  unfold window_then_proceed, wait_readiness, new_chan.
+  destruct (stopped s); [cbn [fst]; apply wsum_quiet, quiet_refl|].
+  destruct (_ || _); [cbn [fst]; apply wsum_quiet; qt|apply proceed_wsum].
 Qed.
 
 (* the common tail of start / create / first poll / resumed poll *)
